@@ -82,6 +82,9 @@ StrVec == {[f |-> "fn:string:concat", a |-> q] : q \in {<<>>} \cup {<<x>> : x \i
           \cup {[f |-> ":match_prefix", a |-> <<x, y>>] : x \in Names \cup {Str("/a/b")}, y \in Names}
           \cup {[f |-> g, a |-> <<Tm(i), Tm(j)>>] : g \in {":time:lt", ":time:le", ":time:gt", ":time:ge"}, i \in 0..2, j \in 0..2}
           \cup {[f |-> g, a |-> <<Du(i), Du(j)>>] : g \in {":duration:lt", ":duration:le", ":duration:gt", ":duration:ge"}, i \in 0..2, j \in 0..2}
+          \* the same orders on the wide timeline: index i stands for i * 2^62 ns (-2 is the earliest instant there is, differences overflow int64)
+          \cup {[f |-> g, a |-> <<<<"tw", i>>, <<"tw", j>>>>] : g \in {":time:lt", ":time:le", ":time:gt", ":time:ge"}, i \in -2..1, j \in -2..1}
+          \cup {[f |-> g, a |-> <<<<"dw", i>>, <<"dw", j>>>>] : g \in {":duration:lt", ":duration:le", ":duration:gt", ":duration:ge"}, i \in -2..1, j \in -2..1}
 Cases == CASE Mode = "str" -> StrVec [] Mode = "match" -> Match [] Mode = "arith" -> Arith [] Mode = "struct" -> Struct [] Mode = "cmp" -> Cmp [] Mode = "red" -> Red [] Mode = "ring" -> RingVec
 Init == c = <<>>
 Next == c = <<>> /\ c' \in Cases
